@@ -17,6 +17,8 @@ func checkC02(p *Program, r *Result) {
 		"(C02.c) with a metadata callback installed, every iteration over the metadata indexes either returns an error or invokes the callback on the record parsed from that entry's offset, and the sequential iterator invokes it for every metadata token; " +
 		"(C02.d) GetAttachmentReader seeks to offset+9 and GetMetadata to offset, the convention under which the writer records index offsets (position of the opcode byte); " +
 		"(C02.e) Reader.Messages returns the index-based iterator only on the branch where the gate is true; " +
+		"(C02.g) the record NextInto yields is sliced from the chunk slot and offset of the queue entry at the cursor; " +
+		"(C02.f) when it.order can be FileOrder, chunks are sorted by ascending ChunkStartOffset and no sort/reverse of the pending-message queue can execute; " +
 		"(C02.k) every read the index-based path issues on the Reader's shared io.ReadSeeker is preceded on every path, in the same function, by an absolute seek (the stream position is not private to an iterator); " +
 		"(C02.o) a chunk slot's buffer owns its bytes (never a view of the shared read buffer); (C02.b) both iterators bind message, channel and schema by id (C01.d)."
 	r.NotDecided = []string{"element-wise equality of the indexed and sequential sequences (run-time)", "order of file-order reads"}
@@ -35,6 +37,10 @@ func checkC02(p *Program, r *Result) {
 	checkSlotOwnership(p, r, "C02.o")
 	checkBindingKeys(p, r, "C02.b")
 	checkPositionedReads(p, r)
+	r.rule("C02.g", "the yielded record is the one designated by the queue entry at the cursor", 0)
+	checkCursorDiscipline(p, r, "C02.g")
+	r.rule("C02.f", "file order: chunks by ascending offset, message queue never reordered", 3)
+	checkFileOrder(p, r)
 }
 
 // silentTables: iterator fields (slicemaps) whose Get(...) == nil test does not lead to an error on every path.
